@@ -322,6 +322,46 @@ def r6_layout(ctx):
                   f"`{rhs}` may hold a repeated (ID, TIME) entry when joined onto the requested index: a request with a repeated age returns more rows than requested (4 -> 6)")
 
 
+def r8_conditioning(ctx):
+    """The closed form is evaluated in single precision.  An algebraically equal re-arrangement that subtracts two quantities tending to
+    the same limit (`1 - 1/(1+g)` for small g) loses every significant digit there: the value is no longer the closed form (up to
+    rounding) but 0 / inf / NaN.  Decided symbolically for the one-parameter formula functions (`metric(g)`, `metric(g_deltas_exp)`), whose
+    parameter ranges over (0, +inf): for every difference `a - b` (resp. `a + b` with opposite signs) in the function, with temporaries
+    substituted, lim a/b at 0+ and at +inf must not be 1."""
+    ctx.rule("C09.R8", "one-parameter formula functions of the trajectory (metric) subtract no two quantities with the same limit on (0, +inf)", 2)
+    from ..astq import Inliner
+    x = sp.Symbol("x", positive=True)
+    n = 0
+    for f in ctx.ix.iter_funcs():
+        if f.name != "metric" or not f.mod.startswith("leaspy.models") or f.cls is None:
+            continue
+        kws = [p.arg for p in f.node.args.kwonlyargs + f.node.args.args if p.arg not in ("self", "cls")]
+        if len(kws) != 1:
+            continue
+        n += 1
+        inl = Inliner(f.node)
+        bad = None
+        for sub in ast.walk(f.node):
+            if not (isinstance(sub, ast.BinOp) and isinstance(sub.op, ast.Sub)):
+                continue
+            try:
+                a_ = Normalizer({kws[0]: x})(inl.resolve(sub.left))
+                b_ = Normalizer({kws[0]: x})(inl.resolve(sub.right))
+                if a_ == 0 or b_ == 0:
+                    continue
+                for pt in (0, sp.oo):
+                    la, lb = sp.limit(a_, x, pt, "+" if pt == 0 else "-"), sp.limit(b_, x, pt, "+" if pt == 0 else "-")
+                    if la.is_finite and lb.is_finite and la == lb and la != 0:
+                        bad = (sub, pt, la)
+            except (NFUnsupported, NotImplementedError, ValueError, TypeError, AttributeError):
+                continue
+        ctx.check(bad is None, "C09.R8", f, bad[0] if bad else f.node, f"{f.qual}: no cancelling difference on (0, +inf)",
+                  f"`{U(bad[0])[:60] if bad else ''}` subtracts two quantities that both tend to {bad[2] if bad else ''} when {kws[0]} -> {bad[1] if bad else ''}: in single precision the difference "
+                  "loses all its digits there (the metric becomes inf, the trajectory NaN / 0 instead of the closed form)")
+    if n == 0:
+        raise AnalysisError("C09.R8", "anchor vanished: metric(g) functions of the models")
+
+
 def r7_requested_ages(ctx):
     """The closed forms of R2 are functions of the time variable `t`: the estimate is the closed form *at the requested age* only if
     the requested ages reach `t` unchanged and unmasked (a masked age is computed as if the individual had no visit: value 0)."""
@@ -399,6 +439,7 @@ def rules(ctx):
     r5_clone(ctx)
     r6_layout(ctx)
     r7_requested_ages(ctx)
+    r8_conditioning(ctx)
     ctx.trust("sigmoid is increasing with range (0,1) and sigmoid(-log g) = 1/(1+g); sympy sign assumptions; pandas join keeps the left index order")
     ctx.assume("weights of data variables are 0/1 masks")
 
